@@ -311,6 +311,15 @@ func runNative(bin string, replay string) (*nativeResult, string, error) {
 	b, err := os.ReadFile(outf)
 	os.Remove(outf)
 	if err != nil {
+		// the Go runtime cannot recover from a fault on unmapped memory: the
+		// test binary dies without writing its result. That IS the native
+		// outcome of "read of unmapped memory" in the model.
+		so := string(out)
+		for _, sig := range []string{"unexpected fault address", "SIGSEGV", "SIGBUS"} {
+			if strings.Contains(so, sig) {
+				return &nativeResult{Panic: "process killed by a memory fault (" + sig + ")", Done: false}, so, nil
+			}
+		}
 		return nil, string(out), fmt.Errorf("native run produced no result")
 	}
 	nr := &nativeResult{}
